@@ -119,30 +119,19 @@ def run(ctx, chk):
                     sigs.append(signature(hit[0], cn))
             if None in sigs or sigs[0] == sigs[1]:
                 continue
-            site0 = site_of_hit.get(id(hit0[0])) if hit0 else None
             # preconditions hold iff some value of the draw leads to success (derived, not oracle):
             # then the result legitimately depends on the draw
             if sigs[0][0] is True or sigs[1][0] is True:
                 continue
-            # preconditions fail, yet the result differs with the draw: label by the first
-            # oracle gate that fails under this valuation (for the report / known-findings key)
-            # the exit taken when the draw succeeds tells which kind of gate sits after the draw:
-            # an exit built in Network.perform_action is a network-level gate, any other site
-            # (host dispatcher, subnet scan) a host-level one; the label is the first failing
-            # oracle gate *of that kind*
-            host_level = site0 is not None and not site0.endswith("Network.perform_action")
-            first = None
-            for g in req:
-                if (g in HOST_GATES) != host_level:
-                    continue
-                F = GATES[g]
-                if not f_eval(F, {a: v.get(a, False) for a in f_atoms(F)}):
-                    first = g
-                    break
-            first = first or ("an unrecognised host-level precondition" if host_level
-                              else "an unrecognised network-level precondition")
-            if first not in dep:
-                dep[first] = (sigs[0], sigs[1])
+            # preconditions fail, yet the result differs with the draw: every required gate that
+            # fails under this valuation is a gate whose failure does not settle the result before
+            # the draw (a gate tested before the draw ends the step whatever else holds, so it is
+            # never among them on a valuation where the draw still matters)
+            failing = [g for g in req
+                       if not f_eval(GATES[g], {a: v.get(a, False) for a in f_atoms(GATES[g])})]
+            for g in failing or ["an unrecognised precondition"]:
+                if g not in dep:
+                    dep[g] = (sigs[0], sigs[1])
         chk.ob("C07.partition", f"{K}: exits partition the valuations (exactly one exit each)",
                partition_bad is None,
                "" if partition_bad is None else f"{partition_bad[1]} exits for {partition_bad[0]}",
